@@ -1267,7 +1267,7 @@ static int sp_dgemm(char tA, char tB, number alpha, void *a, void *b,
 
   if (sp_a && sp_b && sp_c && partial) {
 
-    ccs *A = (tA == 'T' ? a : transpose(a, 0));
+    ccs *A = (tA != 'N' ? a : transpose(a, 0));
     ccs *B = (tB == 'N' ? b : transpose(b, 0));
     ccs *C = c;
     int j, l;
